@@ -250,8 +250,9 @@ def r3(ctx, retsets):
         un = L.unprotected(name)
 
         def classify(inst, E, st):
-            if inst.op == "call" and inst.callee in ("pthread_rwlock_rdlock", "pthread_rwlock_wrlock"):
-                return ["acq"]
+            if inst.op == "call" and inst.callee in ("pthread_rwlock_rdlock", "pthread_rwlock_wrlock") and \
+                    vf.root_of(vf.expr(f, inst.args[0])) == ("arg", 0):
+                return ["acq"]      # the lock of the table that is read (a copy also locks its destination, entry by entry)
             return None
         outs, fl = es.count_effects(f, pdb, classify, retsets)
         worst = max((o["counts"].get("acq", 0) for o in outs), default=0)
@@ -377,6 +378,9 @@ def r4(ctx, retsets):
     # spki
     fn = pdb.fn("spki_table_copy_except_socket")
     ctx.touch(fn)
+    if not fn.calls("spki_table_add_entry"):
+        raise AnalysisBroken("spki_table_copy_except_socket no longer copies through spki_table_add_entry: the rules on what is added to the "
+                             "destination and how a failed copy is reported are written for that call")
     for same in (True, False):
         def oracle2(inst, pred, a, b, E, same=same):
             if pred in ("eq", "ne") and ("arg", 2) in (a, b):
@@ -408,6 +412,8 @@ def r4_spki_latch(ctx, retsets):
     """a key that could not be copied fails the whole copy, whatever is copied after it (otherwise an incomplete shadow table is swapped in)"""
     pdb = ctx.pdb
     fn = pdb.fn("spki_table_copy_except_socket")
+    if not fn.calls("spki_table_add_entry"):
+        raise AnalysisBroken("spki_table_copy_except_socket no longer copies through spki_table_add_entry")
     err = pdb.enum_value("SPKI_ERROR")
 
     def classify(inst, E, st):
